@@ -236,8 +236,8 @@ class Parser(Node):
         # a quoted value ends at the last closing quote that is followed only by units and/or a comment,
         # but never extends over a closing quote that is followed by (units and) a comment
         tail = r'(?:\s+[^\s#="\x27]+)?\s*'
-        dquote = r'"((?:(?!"'+tail+r'#).)*)"(?='+tail+r'(?:#.*)?$)'
-        squote = dquote.replace('"', "\\'")
+        quoted = r'Q((?:(?!Q'+tail+r'#).)*)Q(?='+tail+r'(?:#.*)?$)'
+        dquote, squote = quoted.replace('Q','"'), quoted.replace('Q',r"\'")
         m=re.match(r'^(("""(.*)"""|'+dquote+r'|'+squote+r'|([^# ]+)))', self.ccode)
         if m:
             self.parsed.append('part_value')
